@@ -84,7 +84,20 @@ func (n NodeSet) String() string {
 		return ""
 	}
 
-	return GetCursorString(n[0])
+	return GetCursorString(n.first())
+}
+
+// first returns the node that comes first in document order.
+func (n NodeSet) first() store.Cursor {
+	first := n[0]
+
+	for _, i := range n[1:] {
+		if i.Pos() < first.Pos() {
+			first = i
+		}
+	}
+
+	return first
 }
 
 func (n NodeSet) Number() float64 {
